@@ -1,8 +1,584 @@
+(* Proofs about the model of problem_instances.py (C19). *)
 From QV Require Import Jssp.Valid.
+From Coq Require Import Permutation Sorting.Sorted.
 Open Scope Z_scope.
 
+(* ------------------------------------------------------------------ boolean equalities *)
+Lemma op_eqb_eq a b : op_eqb a b = true <-> a = b.
+Proof.
+  destruct a as [n1 j1 m1 d1], b as [n2 j2 m2 d2]; unfold op_eqb; simpl.
+  rewrite !andb_true_iff, !String.eqb_eq, Z.eqb_eq. split.
+  - intros [[[-> ->] ->] ->]. reflexivity.
+  - intros E; inversion E; subst; auto.
+Qed.
+
+Lemma job_eqb_eq a b : job_eqb a b = true <-> a = b.
+Proof.
+  destruct a as [n1 o1], b as [n2 o2]; unfold job_eqb; simpl.
+  rewrite andb_true_iff, String.eqb_eq, (list_eqb_eq op_eqb op_eqb_eq). split.
+  - intros [-> ->]. reflexivity.
+  - intros E; inversion E; subst; auto.
+Qed.
+
+Lemma job_mem_In j l : job_mem j l = true <-> In j l.
+Proof.
+  unfold job_mem. rewrite existsb_exists. split.
+  - intros [x [Hin E]]. apply job_eqb_eq in E. subst. exact Hin.
+  - intros Hin. exists j. split; [exact Hin | apply job_eqb_eq; reflexivity].
+Qed.
+
+(* ------------------------------------------------------------------ neighbour check = precedence along a list *)
 Lemma neighbours_ok_tl l : neighbours_ok l = true -> neighbours_ok (tl l) = true.
 Proof.
   destruct l as [|a [|b t]]; simpl; auto.
   intros H. apply andb_true_iff in H as [_ H]. exact H.
+Qed.
+
+Lemma neighbours_ok_spec l : neighbours_ok l = true <-> precedence_ok l.
+Proof.
+  induction l as [|a t IH].
+  - split; [|reflexivity]. intros _ k x y H. destruct k; discriminate.
+  - destruct t as [|b t'].
+    + split; [|reflexivity]. intros _ k x y H1 H2. destruct k as [|[|k]]; simpl in *; discriminate.
+    + change (neighbours_ok (a :: b :: t')) with ((end_of a <=? start_of b) && neighbours_ok (b :: t')).
+      rewrite andb_true_iff, Z.leb_le, IH. split.
+      * intros [H0 Hp] k x y Hx Hy. destruct k as [|k].
+        -- simpl in Hx, Hy. inversion Hx; inversion Hy; subst. exact H0.
+        -- simpl in Hx. apply (Hp k x y); [exact Hx | exact Hy].
+      * intros Hp. split.
+        -- apply (Hp 0%nat a b); reflexivity.
+        -- intros k x y Hx Hy. apply (Hp (S k) x y); [exact Hx | exact Hy].
+Qed.
+
+(* ------------------------------------------------------------------ insertion sort *)
+Definition le_start (a b : sop) : Prop := start_of a <= start_of b.
+
+Lemma insert_perm x l : Permutation (x :: l) (insert_by_start x l).
+Proof.
+  induction l as [|y ys IH]; simpl; [reflexivity|].
+  destruct (start_of x <=? start_of y); [reflexivity|].
+  rewrite perm_swap. apply perm_skip. exact IH.
+Qed.
+
+Lemma sort_perm l : Permutation l (sort_by_start l).
+Proof.
+  induction l as [|x xs IH]; simpl; [constructor|].
+  rewrite <- insert_perm. apply perm_skip. exact IH.
+Qed.
+
+Lemma insert_sorted x l : StronglySorted le_start l -> StronglySorted le_start (insert_by_start x l).
+Proof.
+  induction l as [|y ys IH]; simpl; intros Hs.
+  - constructor; [constructor | constructor].
+  - inversion Hs as [|? ? Hs' Hall]; subst.
+    destruct (start_of x <=? start_of y) eqn:E.
+    + apply Z.leb_le in E. constructor; [exact Hs|].
+      constructor; [exact E|]. eapply Forall_impl; [|exact Hall].
+      intros c Hc. unfold le_start in *. lia.
+    + apply Z.leb_gt in E. constructor; [apply IH; exact Hs'|].
+      apply (Permutation_Forall (insert_perm x ys)).
+      constructor; [unfold le_start; lia | exact Hall].
+Qed.
+
+Lemma sort_sorted l : StronglySorted le_start (sort_by_start l).
+Proof.
+  induction l as [|x xs IH]; simpl; [constructor | apply insert_sorted; exact IH].
+Qed.
+
+(* ------------------------------------------------------------------ pairwise relations on lists *)
+Lemma FOP_inv {A} (R : A -> A -> Prop) a l :
+  ForallOrdPairs R (a :: l) -> Forall (R a) l /\ ForallOrdPairs R l.
+Proof. intros H; inversion H; subst; split; assumption. Qed.
+
+Lemma FOP_perm {A} (R : A -> A -> Prop) :
+  (forall a b, R a b -> R b a) ->
+  forall l l', Permutation l l' -> ForallOrdPairs R l -> ForallOrdPairs R l'.
+Proof.
+  intros Hsym l l' HP. induction HP as [|x l l' HP IH|x y l|l l' l'' HP1 IH1 HP2 IH2]; intros H.
+  - exact H.
+  - apply FOP_inv in H as [Hx Hl]. constructor; [apply (Permutation_Forall HP); exact Hx | apply IH; exact Hl].
+  - apply FOP_inv in H as [Hy H]. apply FOP_inv in H as [Hx Hl].
+    inversion Hy as [|? ? Hyx Hyl]; subst.
+    constructor; [constructor; [apply Hsym; exact Hyx | exact Hx]|].
+    constructor; [exact Hyl | exact Hl].
+  - apply IH2, IH1, H.
+Qed.
+
+Lemma Forall_filter {A} (P : A -> Prop) f l : Forall P l -> Forall P (filter f l).
+Proof.
+  rewrite !Forall_forall. intros H x Hx. apply filter_In in Hx as [Hx _]. apply H, Hx.
+Qed.
+
+Lemma FOP_filter {A} (R : A -> A -> Prop) f l : ForallOrdPairs R l -> ForallOrdPairs R (filter f l).
+Proof.
+  induction l as [|a l IH]; simpl; intros H; [constructor|].
+  apply FOP_inv in H as [Ha Hl]. destruct (f a).
+  - constructor; [apply Forall_filter; exact Ha | apply IH; exact Hl].
+  - apply IH; exact Hl.
+Qed.
+
+Lemma FOP_impl_on {A} (P : A -> Prop) (R S : A -> A -> Prop) l :
+  (forall a b, P a -> P b -> R a b -> S a b) -> Forall P l -> ForallOrdPairs R l -> ForallOrdPairs S l.
+Proof.
+  intros HRS. induction l as [|a l IH]; intros HP H; [constructor|].
+  apply FOP_inv in H as [Ha Hl]. inversion HP as [|? ? Pa Pl]; subst.
+  constructor; [|apply IH; assumption].
+  rewrite Forall_forall in *. intros c Hc. apply HRS; auto.
+Qed.
+
+(* ------------------------------------------------------------------ sorted neighbours <-> pairwise (Appendix A.4) *)
+Definition pos_dur (p : sop) : Prop := 0 < op_dur (fst p).
+
+Lemma no_overlap_sym a b : no_overlap a b -> no_overlap b a.
+Proof. unfold no_overlap; tauto. Qed.
+
+Lemma sorted_neighbours_pairwise l :
+  Forall pos_dur l -> StronglySorted le_start l ->
+  (neighbours_ok l = true <-> ForallOrdPairs no_overlap l).
+Proof.
+  induction l as [|a t IH]; intros Hd Hs.
+  - split; [constructor | reflexivity].
+  - inversion Hd as [|? ? Hda Hdt]; subst. inversion Hs as [|? ? Hs' Hall]; subst.
+    destruct t as [|b t'].
+    + split; [|reflexivity]. intros _. constructor; constructor.
+    + change (neighbours_ok (a :: b :: t')) with ((end_of a <=? start_of b) && neighbours_ok (b :: t')).
+      rewrite andb_true_iff, Z.leb_le, (IH Hdt Hs'). split.
+      * intros [H0 Hp]. constructor; [|exact Hp].
+        inversion Hs' as [|? ? _ Hb]; subst.
+        constructor; [left; exact H0|].
+        rewrite Forall_forall in *. intros c Hc. left. specialize (Hb c Hc). unfold le_start in Hb. lia.
+      * intros H. apply FOP_inv in H as [Ha Hp]. split; [|exact Hp].
+        inversion Ha as [|? ? Hab _]; subst. inversion Hall as [|? ? Hle _]; subst.
+        inversion Hdt as [|? ? Hdb _]; subst.
+        unfold no_overlap, le_start, pos_dur, end_of, start_of in *. lia.
+Qed.
+
+(* the per-machine check of the implementation, for one machine *)
+Lemma machine_check_spec l :
+  Forall pos_dur l ->
+  (neighbours_ok (sort_by_start l) = true <-> ForallOrdPairs no_overlap l).
+Proof.
+  intros Hd.
+  rewrite (sorted_neighbours_pairwise (sort_by_start l)).
+  - split; apply FOP_perm; try exact no_overlap_sym; [symmetry|]; apply sort_perm.
+  - apply (Permutation_Forall (sort_perm l)). exact Hd.
+  - apply sort_sorted.
+Qed.
+
+(* ------------------------------------------------------------------ grouping by machine *)
+Definition same_machine_no_overlap (a b : sop) : Prop := mach_of a = mach_of b -> no_overlap a b.
+
+Lemma on_machine_cons m a l :
+  on_machine m (a :: l) = if String.eqb (mach_of a) m then a :: on_machine m l else on_machine m l.
+Proof. reflexivity. Qed.
+
+Lemma In_on_machine m c l : In c (on_machine m l) <-> In c l /\ mach_of c = m.
+Proof. unfold on_machine. rewrite filter_In, String.eqb_eq. reflexivity. Qed.
+
+Lemma machines_split (ms : list string) flat :
+  (forall p, In p flat -> In (mach_of p) ms) ->
+  (ForallOrdPairs same_machine_no_overlap flat <->
+   forall m, In m ms -> ForallOrdPairs no_overlap (on_machine m flat)).
+Proof.
+  intros Hms. split.
+  - intros H m _. apply (FOP_impl_on (fun p => mach_of p = m) same_machine_no_overlap).
+    + intros a b Ha Hb HR. apply HR. congruence.
+    + rewrite Forall_forall. intros c Hc. apply In_on_machine in Hc. tauto.
+    + apply FOP_filter. exact H.
+  - induction flat as [|a l IH]; intros H; [constructor|].
+    assert (Hl : forall m, In m ms -> ForallOrdPairs no_overlap (on_machine m l)).
+    { intros m Hm. specialize (H m Hm). rewrite on_machine_cons in H.
+      destruct (String.eqb (mach_of a) m); [apply FOP_inv in H; tauto | exact H]. }
+    constructor.
+    + rewrite Forall_forall. intros c Hc Hmach.
+      specialize (H (mach_of a) (Hms a (or_introl eq_refl))).
+      rewrite on_machine_cons, String.eqb_refl in H. apply FOP_inv in H as [Ha _].
+      rewrite Forall_forall in Ha. apply Ha. apply In_on_machine. split; [exact Hc | congruence].
+    + apply IH; [|exact Hl]. intros p Hp. apply Hms. right. exact Hp.
+Qed.
+
+Lemma machines_check_spec (ms : list string) flat :
+  Forall pos_dur flat -> (forall p, In p flat -> In (mach_of p) ms) ->
+  (forallb (fun m => neighbours_ok (sort_by_start (on_machine m flat))) ms = true
+   <-> ForallOrdPairs same_machine_no_overlap flat).
+Proof.
+  intros Hd Hms. rewrite (machines_split ms flat Hms), forallb_forall.
+  split; intros H m Hm; specialize (H m Hm);
+    apply (machine_check_spec (on_machine m flat)); try exact H; apply Forall_filter; exact Hd.
+Qed.
+
+(* ------------------------------------------------------------------ schedules of matching shape *)
+Lemma all_scheduled_spec s :
+  all_scheduled s = true <-> (forall kv p, In kv s -> In p (snd kv) -> snd p <> None).
+Proof.
+  unfold all_scheduled. rewrite forallb_forall. split.
+  - intros H kv p Hkv Hp. specialize (H kv Hkv). rewrite forallb_forall in H. specialize (H p Hp).
+    unfold is_sched in H. destruct (snd p); [discriminate | discriminate H].
+  - intros H kv Hkv. apply forallb_forall. intros p Hp. specialize (H kv p Hkv Hp).
+    unfold is_sched. destruct (snd p); [reflexivity | contradiction].
+Qed.
+
+Lemma In_strip p row : In p (strip row) <-> In (fst p, Some (snd p)) row.
+Proof.
+  unfold strip. rewrite in_flat_map. split.
+  - intros [q [Hq Hp]]. destruct q as [o [t|]]; simpl in Hp; [|contradiction].
+    destruct Hp as [<-|[]]. exact Hq.
+  - intros H. exists (fst p, Some (snd p)). split; [exact H|]. simpl. left. destruct p; reflexivity.
+Qed.
+
+Lemma In_strip_fst p row : In p (strip row) -> In (fst p) (map fst row).
+Proof. intros H. apply In_strip in H. apply (in_map fst) in H. exact H. Qed.
+
+Lemma lookup_rows_Forall2 s js rows :
+  lookup_rows s js = Some rows -> Forall2 (fun j row => sched_lookup s j = Some row) js rows.
+Proof.
+  revert rows. induction js as [|j js IH]; simpl; intros rows H.
+  - inversion H; constructor.
+  - destruct (sched_lookup s j) as [r|] eqn:E; [|discriminate].
+    destruct (lookup_rows s js) as [rs|]; [|discriminate]. inversion H; subst.
+    constructor; [exact E | apply IH; reflexivity].
+Qed.
+
+Lemma lookup_rows_exists s js :
+  (forall j, In j js -> exists row, sched_lookup s j = Some row) -> exists rows, lookup_rows s js = Some rows.
+Proof.
+  induction js as [|j js IH]; simpl; intros H; [eexists; reflexivity|].
+  destruct (H j (or_introl eq_refl)) as [r ->].
+  destruct IH as [rs ->]; [intros j' Hj'; apply H; right; exact Hj'|]. eexists; reflexivity.
+Qed.
+
+Lemma Forall2_In_r {A B} (R : A -> B -> Prop) l l' y :
+  Forall2 R l l' -> In y l' -> exists x, In x l /\ R x y.
+Proof.
+  induction 1 as [|a b l l' Hab _ IH]; intros Hy; [contradiction|].
+  destruct Hy as [<-|Hy]; [exists a; split; [left; reflexivity | exact Hab]|].
+  destruct (IH Hy) as [x [Hx HR]]. exists x. split; [right; exact Hx | exact HR].
+Qed.
+
+Lemma Forall2_In_l {A B} (R : A -> B -> Prop) l l' x :
+  Forall2 R l l' -> In x l -> exists y, In y l' /\ R x y.
+Proof.
+  induction 1 as [|a b l l' Hab _ IH]; intros Hx; [contradiction|].
+  destruct Hx as [<-|Hx]; [exists b; split; [left; reflexivity | exact Hab]|].
+  destruct (IH Hx) as [y [Hy HR]]. exists y. split; [right; exact Hy | exact HR].
+Qed.
+
+(* what the result constructor guarantees *)
+Lemma result_ok_spec i s :
+  result_ok i s = true <->
+  (forall j, In j (inst_jobs i) -> In j (map fst s)) /\
+  (forall kv, In kv s -> In (fst kv) (inst_jobs i)) /\
+  (forall j, In j (inst_jobs i) -> exists row, sched_lookup s j = Some row /\ map fst row = job_ops j).
+Proof.
+  unfold result_ok. rewrite !andb_true_iff, !forallb_forall. split.
+  - intros [[H1 H2] H3]. repeat split.
+    + intros j Hj. apply job_mem_In, H1, Hj.
+    + intros kv Hkv. apply job_mem_In, H2, Hkv.
+    + intros j Hj. specialize (H3 j Hj). destruct (sched_lookup s j) as [row|]; [|discriminate].
+      exists row. split; [reflexivity|]. apply (list_eqb_eq op_eqb op_eqb_eq) in H3. congruence.
+  - intros [H1 [H2 H3]]. repeat split.
+    + intros j Hj. apply job_mem_In, H1, Hj.
+    + intros kv Hkv. apply job_mem_In, H2, Hkv.
+    + intros j Hj. destruct (H3 j Hj) as [row [-> E]]. apply (list_eqb_eq op_eqb op_eqb_eq). congruence.
+Qed.
+
+(* what well-formedness gives for the operations of the instance *)
+Lemma wf_operation i j o :
+  wf_instance i = true -> In j (inst_jobs i) -> In o (job_ops j) ->
+  0 < op_dur o /\ In (op_machine o) (inst_machines i).
+Proof.
+  unfold wf_instance, instance_ok. rewrite !andb_true_iff, !forallb_forall.
+  intros [[[[[_ _] _] Hm] _] Hops] Hj Ho.
+  specialize (Hops j Hj). rewrite andb_true_iff, forallb_forall in Hops. destruct Hops as [_ Hops].
+  specialize (Hops o Ho). unfold operation_ok in Hops. rewrite !andb_true_iff in Hops.
+  split; [apply Z.ltb_lt; tauto|].
+  specialize (Hm j Hj). rewrite forallb_forall in Hm. apply mem_str_In, Hm, Ho.
+Qed.
+
+(* every scheduled operation that the verdict looks at is an operation of the instance *)
+Lemma flat_ops i s rows :
+  wf_instance i = true -> result_ok i s = true -> lookup_rows s (inst_jobs i) = Some rows ->
+  forall p, In p (concat (map strip rows)) -> pos_dur p /\ In (mach_of p) (inst_machines i).
+Proof.
+  intros Hwf Hres Hrows p Hp.
+  apply in_concat in Hp as [srow [Hsrow Hp]]. apply in_map_iff in Hsrow as [row [<- Hrow]].
+  apply lookup_rows_Forall2 in Hrows.
+  destruct (Forall2_In_r _ _ _ _ Hrows Hrow) as [j [Hj Hl]].
+  apply result_ok_spec in Hres as [_ [_ H3]]. destruct (H3 j Hj) as [row' [Hl' Hops]].
+  assert (row' = row) by congruence. subst row'.
+  apply In_strip_fst in Hp. rewrite Hops in Hp.
+  destruct (wf_operation i j (fst p) Hwf Hj Hp) as [Hd Hm]. split; [exact Hd | exact Hm].
+Qed.
+
+Lemma is_valid_impl_verdict i s :
+  wf_instance i = true -> result_ok i s = true ->
+  exists b, is_valid_impl i s = Ok b /\ (b = true <-> valid_spec i s).
+Proof.
+  intros Hwf Hres. unfold is_valid_impl.
+  destruct (lookup_rows_exists s (inst_jobs i)) as [rows Hrows].
+  { intros j Hj. apply result_ok_spec in Hres as [_ [_ H3]]. destruct (H3 j Hj) as [row [H _]]. eauto. }
+  destruct (all_scheduled s) eqn:A; simpl.
+  - rewrite Hrows. eexists; split; [reflexivity|].
+    pose proof (flat_ops i s rows Hwf Hres Hrows) as Hflat.
+    rewrite andb_true_iff, machines_check_spec.
+    + split.
+      * intros [Hj Hm]. constructor.
+        -- apply all_scheduled_spec, A.
+        -- intros rows' E row Hrow. assert (rows' = rows) by congruence; subst.
+           apply neighbours_ok_spec. rewrite forallb_forall in Hj. apply Hj, in_map, Hrow.
+        -- intros rows' E. assert (rows' = rows) by congruence; subst. exact Hm.
+      * intros [_ Hp Hm]. split; [|apply Hm, Hrows].
+        apply forallb_forall. intros srow Hs. apply in_map_iff in Hs as [row [<- Hrow]].
+        apply neighbours_ok_spec, (Hp rows Hrows row Hrow).
+    + rewrite Forall_forall. intros p Hp. apply Hflat, Hp.
+    + intros p Hp. apply Hflat, Hp.
+  - eexists; split; [reflexivity|]. split; [discriminate|].
+    intros [Ha _ _]. apply all_scheduled_spec in Ha. congruence.
+Qed.
+
+Lemma valid_schedule_impl_spec i s :
+  wf_instance i = true -> result_ok i s = true ->
+  (valid_spec i s -> valid_schedule_impl i s = Ok s) /\
+  (~ valid_spec i s -> valid_schedule_impl i s = Err JSSPException).
+Proof.
+  intros Hwf Hres. destruct (is_valid_impl_verdict i s Hwf Hres) as [b [E Hb]].
+  unfold valid_schedule_impl. rewrite E. simpl. destruct b.
+  - split; [reflexivity|]. intros Hn. exfalso. apply Hn, Hb. reflexivity.
+  - split; [|reflexivity]. intros Hv. apply Hb in Hv. discriminate.
+Qed.
+
+(* ------------------------------------------------------------------ makespan *)
+Definition is_max (l : list Z) (m : Z) : Prop := In m l /\ forall x, In x l -> x <= m.
+
+Lemma max_list_spec l : l <> [] -> exists m, max_list l = Some m /\ is_max l m.
+Proof.
+  induction l as [|x t IH]; intros Hne; [contradiction|]. simpl.
+  destruct t as [|y t'].
+  - simpl. exists x. split; [reflexivity|]. split; [left; reflexivity|]. intros z [<-|[]]. lia.
+  - destruct IH as [m [E [Hin Hmax]]]; [discriminate|]. rewrite E. eexists; split; [reflexivity|]. split.
+    + destruct (Z.max_spec x m) as [[_ ->]|[_ ->]]; [right; exact Hin | left; reflexivity].
+    + intros z [<-|Hz]; [lia|]. specialize (Hmax z Hz). lia.
+Qed.
+
+Lemma is_max_unique l m m' : is_max l m -> is_max l m' -> m = m'.
+Proof. intros [H1 H2] [H3 H4]. specialize (H2 m' H3). specialize (H4 m H1). lia. Qed.
+
+Lemma last_opt_In {A} (l : list A) x : last_opt l = Some x -> In x l.
+Proof.
+  induction l as [|a t IH]; simpl; [discriminate|]. destruct t as [|b t'].
+  - intros E; inversion E; left; reflexivity.
+  - intros E. right. apply IH, E.
+Qed.
+
+Lemma last_opt_Some {A} (l : list A) : l <> [] -> exists x, last_opt l = Some x.
+Proof.
+  induction l as [|a t IH]; intros H; [contradiction|]. destruct t as [|b t'].
+  - exists a; reflexivity.
+  - destruct IH as [x E]; [discriminate|]. exists x. exact E.
+Qed.
+
+Lemma precedence_ok_tl a t : precedence_ok (a :: t) -> precedence_ok t.
+Proof. intros H k x y Hx Hy. apply (H (S k) x y); assumption. Qed.
+
+(* along a job in precedence order the last operation ends last *)
+Lemma last_ends_last row p :
+  Forall pos_dur row -> precedence_ok row -> last_opt row = Some p ->
+  forall q, In q row -> end_of q <= end_of p.
+Proof.
+  induction row as [|a t IH]; intros Hd Hp Hl q Hq; [contradiction|].
+  inversion Hd as [|? ? Hda Hdt]; subst. destruct t as [|b t'].
+  - simpl in Hl. inversion Hl; subst. destruct Hq as [<-|[]]. lia.
+  - assert (Hb : end_of b <= end_of p).
+    { apply (IH Hdt (precedence_ok_tl _ _ Hp) Hl). left; reflexivity. }
+    destruct Hq as [<-|Hq].
+    + specialize (Hp 0%nat a b eq_refl eq_refl). inversion Hdt as [|? ? Hdb _]; subst.
+      unfold pos_dur, end_of, start_of in *. lia.
+    + apply (IH Hdt (precedence_ok_tl _ _ Hp) Hl q Hq).
+Qed.
+
+Lemma strip_fst row : forallb is_sched row = true -> map fst (strip row) = map fst row.
+Proof.
+  induction row as [|[o [t|]] row IH]; simpl; intros H; try discriminate; [reflexivity|].
+  f_equal. apply IH. exact H.
+Qed.
+
+(* a dict has pairwise different keys *)
+Definition keys_nodup (s : schedule) : Prop := NoDup (map fst s).
+
+Lemma sched_lookup_own s kv : keys_nodup s -> In kv s -> sched_lookup s (fst kv) = Some (snd kv).
+Proof.
+  unfold keys_nodup, sched_lookup. induction s as [|a s IH]; intros Hnd Hin; [contradiction|].
+  simpl in Hnd. inversion Hnd as [|? ? Hna Hnd']; subst. simpl.
+  destruct (job_eqb (fst a) (fst kv)) eqn:E.
+  - apply job_eqb_eq in E. destruct Hin as [->|Hin]; [reflexivity|].
+    exfalso. apply Hna. rewrite E. apply in_map, Hin.
+  - destruct Hin as [->|Hin].
+    + assert (job_eqb (fst kv) (fst kv) = true) by (apply job_eqb_eq; reflexivity). congruence.
+    + apply IH; assumption.
+Qed.
+
+Lemma mapM_Forall2 {A B} (f : A -> result B) l :
+  (forall x, In x l -> exists y, f x = Ok y) ->
+  exists ys, mapM f l = Ok ys /\ Forall2 (fun x y => f x = Ok y) l ys.
+Proof.
+  induction l as [|x t IH]; intros H; simpl.
+  - exists []. split; [reflexivity | constructor].
+  - destruct (H x (or_introl eq_refl)) as [y Ey]. rewrite Ey. simpl.
+    destruct IH as [ys [E F]]; [intros z Hz; apply H; right; exact Hz|]. rewrite E. simpl.
+    exists (y :: ys). split; [reflexivity | constructor; assumption].
+Qed.
+
+Definition last_end (kv : job * list psop) : result Z :=
+  match last_opt (strip (snd kv)) with Some p => Ok (end_of p) | None => Err "IndexError"%string end.
+
+Lemma makespan_impl_spec i s :
+  wf_instance i = true -> result_ok i s = true -> keys_nodup s -> inst_jobs i <> [] ->
+  (valid_spec i s ->
+     exists m, makespan_impl i s = Ok (Some m) /\
+               latest_end (map (fun kv => strip (snd kv)) s) = Some m) /\
+  (~ valid_spec i s -> makespan_impl i s = Ok None).
+Proof.
+  intros Hwf Hres Hnd Hjobs. destruct (is_valid_impl_verdict i s Hwf Hres) as [b [E Hb]].
+  unfold makespan_impl. rewrite E. simpl. split.
+  2:{ intros Hn. destruct b; [exfalso; apply Hn, Hb; reflexivity | reflexivity]. }
+  intros Hv. assert (b = true) by (apply Hb, Hv). subst b. simpl.
+  fold last_end.
+  pose proof (proj1 (result_ok_spec i s) Hres) as [H1 [H2 H3]].
+  destruct (lookup_rows_exists s (inst_jobs i)) as [rows Hrows].
+  { intros j Hj. destruct (H3 j Hj) as [row [H _]]. eauto. }
+  pose proof (lookup_rows_Forall2 _ _ _ Hrows) as HF.
+  destruct Hv as [Hall Hprec _]. specialize (Hprec rows Hrows).
+  (* facts about every row of the dict *)
+  assert (Hrow : forall kv, In kv s ->
+            Forall pos_dur (strip (snd kv)) /\ precedence_ok (strip (snd kv)) /\ strip (snd kv) <> []).
+  { intros kv Hkv. pose proof (H2 kv Hkv) as Hj.
+    pose proof (sched_lookup_own s kv Hnd Hkv) as Hl.
+    destruct (Forall2_In_l _ _ _ _ HF Hj) as [row [Hrow Hl']].
+    assert (row = snd kv) by congruence. subst row.
+    destruct (H3 (fst kv) Hj) as [row' [Hl'' Hops]]. assert (row' = snd kv) by congruence. subst row'.
+    assert (Hsch : forallb is_sched (snd kv) = true).
+    { apply forallb_forall. intros p Hp. specialize (Hall kv p Hkv Hp). unfold is_sched.
+      destruct (snd p); [reflexivity | contradiction]. }
+    repeat split.
+    - rewrite Forall_forall. intros p Hp. apply In_strip_fst in Hp. rewrite Hops in Hp.
+      apply (wf_operation i (fst kv) (fst p) Hwf Hj Hp).
+    - apply Hprec, Hrow.
+    - intros Hnil. apply (f_equal (map fst)) in Hnil. rewrite (strip_fst _ Hsch), Hops in Hnil.
+      unfold wf_instance in Hwf. rewrite !andb_true_iff, !forallb_forall in Hwf. destruct Hwf as [_ Hj'].
+      specialize (Hj' (fst kv) Hj). unfold job_ok in Hj'. rewrite !andb_true_iff in Hj'.
+      destruct Hj' as [[[[[_ Hlen] _] _] _] _]. destruct (job_ops (fst kv)); [discriminate Hlen | discriminate Hnil]. }
+  destruct (mapM_Forall2 last_end s) as [ends [Eends HF2]].
+  { intros kv Hkv. destruct (Hrow kv Hkv) as [_ [_ Hne]]. destruct (last_opt_Some _ Hne) as [p Ep].
+    unfold last_end. rewrite Ep. eauto. }
+  rewrite Eends. simpl.
+  assert (Hs : s <> []).
+  { destruct (inst_jobs i) as [|j js] eqn:Ej; [contradiction|]. intros ->.
+    apply (H1 j). left; reflexivity. }
+  assert (Hends : ends <> []).
+  { intros ->. inversion HF2. subst. contradiction. }
+  destruct (max_list_spec ends Hends) as [m [Em [Hm_in Hm_max]]]. rewrite Em.
+  exists m. split; [reflexivity|]. unfold latest_end.
+  set (all := map end_of (concat (map (fun kv => strip (snd kv)) s))).
+  assert (Hmax : is_max all m).
+  { split.
+    - destruct (Forall2_In_r _ _ _ _ HF2 Hm_in) as [kv [Hkv Hle]].
+      unfold last_end in Hle. destruct (last_opt (strip (snd kv))) as [p|] eqn:Ep; [|discriminate].
+      inversion Hle; subst. apply in_map, in_concat. exists (strip (snd kv)). split.
+      + apply (in_map (fun kv => strip (snd kv))), Hkv.
+      + apply last_opt_In, Ep.
+    - intros x Hx. apply in_map_iff in Hx as [q [<- Hq]]. apply in_concat in Hq as [srow [Hs' Hq]].
+      apply in_map_iff in Hs' as [kv [<- Hkv]].
+      destruct (Hrow kv Hkv) as [Hd [Hp Hne]].
+      destruct (Forall2_In_l _ _ _ _ HF2 Hkv) as [y [Hy Hle]].
+      unfold last_end in Hle. destruct (last_opt (strip (snd kv))) as [p|] eqn:Ep; [|discriminate].
+      inversion Hle; subst. specialize (Hm_max _ Hy).
+      pose proof (last_ends_last _ p Hd Hp Ep q Hq). lia. }
+  destruct (max_list_spec all) as [m' [Em' Hm']].
+  { destruct Hmax as [Hin _]. intros Hnil. rewrite Hnil in Hin. contradiction. }
+  rewrite Em'. f_equal. apply (is_max_unique all); assumption.
+Qed.
+
+(* ------------------------------------------------------------------ constructors accept exactly the documented rules *)
+From Coq Require Import FinFun.
+Open Scope string_scope.
+
+Lemma nonempty_spec s : nonempty s = true <-> s <> "".
+Proof. unfold nonempty. rewrite negb_true_iff. apply String.eqb_neq. Qed.
+
+Lemma machine_ok_spec n : machine_ok n = true <-> n <> "".
+Proof. apply nonempty_spec. Qed.
+
+Lemma operation_ok_spec o :
+  operation_ok o = true <-> op_name o <> "" /\ op_job o <> "" /\ (1 <= op_dur o)%Z.
+Proof.
+  unfold operation_ok. rewrite !andb_true_iff, !nonempty_spec, Z.ltb_lt. intuition lia.
+Qed.
+
+Lemma append_inj_l s a b : s ++ a = s ++ b -> a = b.
+Proof. induction s as [|c s IH]; simpl; intros H; [exact H | inversion H; auto]. Qed.
+
+Lemma nodup_identifiers ops jn :
+  (forall o, In o ops -> op_job o = jn) ->
+  (NoDup (map op_identifier ops) <-> NoDup (map op_name ops)).
+Proof.
+  intros Hj.
+  assert (E : map op_identifier ops = map (fun n => jn ++ "_" ++ n) (map op_name ops)).
+  { rewrite map_map. apply map_ext_in. intros o Ho. unfold op_identifier. rewrite (Hj o Ho). reflexivity. }
+  rewrite E. split.
+  - apply NoDup_map_inv.
+  - apply Injective_map_NoDup. intros x y H. apply append_inj_l in H. simpl in H. inversion H. reflexivity.
+Qed.
+
+Lemma job_ok_spec j :
+  job_ok j = true <->
+  job_name j <> "" /\ job_ops j <> [] /\ NoDup (map op_name (job_ops j)) /\
+  (forall o, In o (job_ops j) -> op_job o = job_name j) /\ NoDup (map op_machine (job_ops j)).
+Proof.
+  unfold job_ok. rewrite !andb_true_iff, nonempty_spec, negb_true_iff, Nat.eqb_neq, !nodup_str_NoDup, forallb_forall.
+  assert (Hlen : length (job_ops j) <> 0%nat <-> job_ops j <> []).
+  { destruct (job_ops j); simpl; split; intros H; try congruence; discriminate. }
+  rewrite Hlen. split.
+  - intros [[[[Hn Hne] Hid] Hjob] Hm].
+    assert (Hjob' : forall o, In o (job_ops j) -> op_job o = job_name j).
+    { intros o Ho. apply String.eqb_eq, Hjob, Ho. }
+    repeat split; auto. apply (nodup_identifiers _ _ Hjob'), Hid.
+  - intros [Hn [Hne [Hid [Hjob Hm]]]]. repeat split; auto.
+    + apply (nodup_identifiers _ _ Hjob), Hid.
+    + intros o Ho. apply String.eqb_eq, Hjob, Ho.
+Qed.
+
+Lemma instance_ok_spec i :
+  instance_ok i = true <->
+  inst_name i <> "" /\ NoDup (inst_machines i) /\ NoDup (map job_name (inst_jobs i)) /\
+  (forall j o, In j (inst_jobs i) -> In o (job_ops j) -> In (op_machine o) (inst_machines i)).
+Proof.
+  unfold instance_ok. rewrite !andb_true_iff, nonempty_spec, !nodup_str_NoDup, forallb_forall. split.
+  - intros [[[Hn Hm] Hj] Ho]. repeat split; auto. intros j o Hj' Ho'.
+    specialize (Ho j Hj'). rewrite forallb_forall in Ho. apply mem_str_In, Ho, Ho'.
+  - intros [Hn [Hm [Hj Ho]]]. repeat split; auto. intros j Hj'. apply forallb_forall.
+    intros o Ho'. apply mem_str_In, (Ho j o Hj' Ho').
+Qed.
+
+(* ------------------------------------------------------------------ non-vacuity: the 2x2 instance of the test-suite *)
+Definition ex_op (n j m : string) (d : Z) := mkOp n j m d.
+Definition ex_j1 := mkJob "j1" [ex_op "o1" "j1" "m1" 1; ex_op "o2" "j1" "m2" 2].
+Definition ex_j2 := mkJob "j2" [ex_op "o1" "j2" "m2" 1; ex_op "o2" "j2" "m1" 1].
+Definition ex_inst := mkInst "2x2" ["m1"; "m2"] [ex_j1; ex_j2].
+Definition ex_sched (a b c d : option Z) : schedule :=
+  [(ex_j2, [(ex_op "o1" "j2" "m2" 1, c); (ex_op "o2" "j2" "m1" 1, d)]);
+   (ex_j1, [(ex_op "o1" "j1" "m1" 1, a); (ex_op "o2" "j1" "m2" 2, b)])].
+
+Lemma ex_hypotheses :
+  wf_instance ex_inst = true /\ inst_jobs ex_inst <> [] /\
+  result_ok ex_inst (ex_sched (Some 0) (Some 1) (Some 0) (Some 1))%Z = true /\
+  keys_nodup (ex_sched (Some 0) (Some 1) (Some 0) (Some 1))%Z /\
+  is_valid_impl ex_inst (ex_sched (Some 0) (Some 1) (Some 0) (Some 1))%Z = Ok true /\
+  makespan_impl ex_inst (ex_sched (Some 0) (Some 1) (Some 0) (Some 1))%Z = Ok (Some 3%Z) /\
+  is_valid_impl ex_inst (ex_sched (Some 0) (Some 1) (Some 1) (Some 2))%Z = Ok false /\
+  is_valid_impl ex_inst (ex_sched (Some 0) None (Some 0) (Some 1))%Z = Ok false.
+Proof.
+  repeat split; try (vm_compute; reflexivity); try discriminate.
+  unfold keys_nodup. simpl. constructor.
+  - intros [H|[]]. discriminate H.
+  - constructor; [intros [] | constructor].
 Qed.
